@@ -1,6 +1,7 @@
 import Iec.Lemmas.Srv104
 import Iec.Lemmas.Srv104Activate
 import Iec.Props.C05
+import Iec.Lemmas.Srv104ITx
 /-
 C07 — CS104 server data-transfer state machine (STARTDT / STOPDT / TESTFR).
 
@@ -16,7 +17,7 @@ Theorems on `Iec.Srv104.handleMessage` (step properties, for every state of the 
 (responses), `periodic_not_started` (events: `sendWaitingASDUs` runs only in state STARTED),
 and C05 `not_started_closes` for I-frames.  The STOPDT sequence: `stopdt_sequence` (the complete output of the step: S-frame first,
 STOPDT con only without unconfirmed events, resulting state) and `stopdt_con_after_ack` (the deferred con in
-UNCONFIRMED_STOPPED).
+UNCONFIRMED_STOPPED).  Every transmission site: `iframes_only_on_started_connection` (`Lemmas/Srv104ITx.lean`).
 -/
 namespace Iec.Props.C07
 open Iec.Srv104 Iec.KWindow
@@ -213,5 +214,28 @@ theorem stopdt_con_after_ack (s : Slave) (i : Nat) (hi : i < s.conns.length) (h 
     rw [conn_setConn _ _ _ (by simp [emit, Slave.setConn, c5, hi])]
     show ((s1.setConn i { s1.conn i with state := 0 }).conn i).state = 0
     rw [conn_setConn _ _ _ (by rw [c5]; exact hi)]
+
+/-! ### every transmission site: I-format APDUs only on a started connection -/
+
+/-- **the server sends I-format APDUs on a connection only while it is STARTED**: the two units of work the server
+performs for a connection `j` - taking a message from its socket (any message, any state: replies of the application,
+everything `handleMessage` does) and its periodic tasks (parked replies, waiting events, timeouts) - append to the wire
+log only I-format APDUs that are on connection `j` itself, and none unless `j` is in state STARTED when the unit
+begins; every other function of a tick (admission, reaping) writes nothing.  Together with `one_started_per_group`'s
+frame lemmas (a connection becomes STARTED only in `activate`, i.e. on STARTDT act, `Lemmas/Srv104Started.lean`) and
+`stopdt_sequence` (STOPDT act leaves STARTED before anything else happens) this is the first sentence of the property
+over every history. -/
+theorem iframes_only_on_started_connection (s : Slave) (j : Nat) :
+    (∃ l, (handleTcpConnection s j).log = s.log ++ l ∧
+      ∀ c b, Obs.tx c b ∈ l → isI b → c = j ∧ (s.conn j).state = 1) ∧
+    (∃ l, (periodic s j).log = s.log ++ l ∧
+      ∀ c b, Obs.tx c b ∈ l → isI b → c = j ∧ (s.conn j).state = 1) :=
+  ⟨iext_handleTcpConnection s j, iext_periodic s j⟩
+
+/-- in particular a message on a connection that is not started never causes an I-format APDU -/
+theorem no_iframe_unless_started (s : Slave) (j : Nat) (h : (s.conn j).state ≠ 1) :
+    ∃ l, (handleTcpConnection s j).log = s.log ++ l ∧ ∀ c b, Obs.tx c b ∈ l → ¬ isI b := by
+  obtain ⟨l, e, p⟩ := iext_handleTcpConnection s j
+  exact ⟨l, e, fun c b hm hi => h (p c b hm hi).2⟩
 
 end Iec.Props.C07
